@@ -26,7 +26,7 @@ V(kind, id, other, by, info) == [kind |-> kind, id |-> id, other |-> other, by |
 NoMeta == [src |-> 0, stream |-> "", off |-> 0, idx |-> 0]
 SeqToSet(s) == {s[i] : i \in 1..Len(s)}
 
-(* cfg = [cap, batch, dqbatch, retry, dq, gaps] (gaps: batches without deliverable events exist, their sequence numbers are never seen by a send): capacity, batch count limits (main, dead queue), AttemptNum, dead queue configured *)
+(* cfg = [cap, batch, dqbatch, retry, dq, gaps, retention, mult10] (retention in microseconds, 0 = pauses not judged; mult10 = 10 x multiplier; (gaps: batches without deliverable events exist, their sequence numbers are never seen by a send): capacity, batch count limits (main, dead queue), AttemptNum, dead queue configured *)
 ObsNew(cfg) ==
   [cfg     |-> cfg,
    fate    |-> [e \in Ev |-> "unread"],   \* unread | inflight | refused | held | dropped | acked | givenup
@@ -42,6 +42,8 @@ ObsNew(cfg) ==
    batches |-> [b \in Batchers |-> <<>>], \* batch sequence number -> ids, as seen by the send function
    failed  |-> [e \in Ev |-> 0],          \* times handed to the dead queue
    onerr   |-> [e \in Ev |-> 0],          \* times reported through the error callback
+   child   |-> {},                        \* ids of events spawned by a split (never pooled, never notified to the input)
+   kids    |-> <<>>,                      \* split parent -> its children: the parent is delivered through them
    viol    |-> {}]
 
 CommittedIds(o) == {o.commits[i].id : i \in 1..Len(o.commits)}
@@ -87,19 +89,33 @@ ODo(o, id, res) ==
 (* a held event was thrown back into the pipeline *)
 OPropagate(o, id) == [o EXCEPT !.fate[id] = IF @ = "held" THEN "inflight" ELSE @]
 
+(* Spawn: a split action turned `parent` into a child-parent event and produced the child events `kids` *)
+OSpawn(o, parent, kids) == [o EXCEPT !.child = @ \cup SeqToSet(kids), !.kids = FnSet(@, parent, SeqToSet(kids))]
+\* an event is finished when an output acknowledged it or it was deliberately dropped; a split parent is never sent by
+\* itself (outputs skip it): it is finished when every child is
+Fin(o, e) == IF e \in DOMAIN o.kids THEN \A k \in o.kids[e] : o.fate[k] \in Finished ELSE o.fate[e] \in Finished
+
 (* Out: the event was added to batcher b *)
 OAdd(o, b, id) == [o EXCEPT !.added[b] = Append(@, id)]
 
 (* the send function of batcher b was called with the batch numbered seq holding ids (C08 size bound) *)
-OSendCall(o, b, seq, ids) ==
+RECURSIVE Pow(_, _)
+Pow(x, n) == IF n <= 0 THEN 1 ELSE x * Pow(x, n - 1)
+\* lower bound of the f-th pause of the exponential back-off (randomization factor 0.5): retention * mult^(f-1) / 2
+PauseLower(retention, mult10, f) == (retention * Pow(mult10, f - 1)) \div (Pow(10, f - 1) * 2)
+
+OSendCall(o, b, seq, ids, t) ==
   LET k == ids[1]
-      cur == IF k \in DOMAIN o.att[b] THEN o.att[b][k] ELSE [calls |-> 0, fails |-> 0]
+      cur == IF k \in DOMAIN o.att[b] THEN o.att[b][k] ELSE [calls |-> 0, fails |-> 0, lastfail |-> 0]
+      f == IF cur.fails > 6 THEN 6 ELSE cur.fails
+      v0 == IF o.cfg.retention > 0 /\ cur.fails > 0 /\ (t - cur.lastfail) * 10 < PauseLower(o.cfg.retention, o.cfg.mult10, f) * 9
+              THEN {V("pause_too_short", k, t - cur.lastfail, b, "")} ELSE {}
       lim == IF b = "dq" THEN o.cfg.dqbatch ELSE o.cfg.batch
       v1 == IF lim > 0 /\ Len(ids) > lim THEN {V("batch_too_big", k, Len(ids), b, "")} ELSE {}
       v2 == {V("resend_after_done", e, 0, b, "") : e \in SeqToSet(ids) \cap o.bdone[b]}
   IN [o EXCEPT !.att[b] = FnSet(@, k, [cur EXCEPT !.calls = @ + 1]),
                !.batches[b] = FnSet(@, seq, ids),
-               !.viol = @ \cup v1 \cup v2]
+               !.viol = @ \cup v0 \cup v1 \cup v2]
 
 (* C08 byte bound: a batch handed to the output exceeds the configured byte size by at most its last event *)
 OSendBytes(o, b, first, total, last, limit) ==
@@ -112,16 +128,16 @@ OStale(o, b, first, waitedMs, boundMs) ==
   IF waitedMs > boundMs THEN [o EXCEPT !.viol = @ \cup {V("batch_stale", first, waitedMs, b, "")}] ELSE o
 
 (* the send function returned *)
-OSendRet(o, b, ids, ok) ==
+OSendRet(o, b, ids, ok, t) ==
   LET k == ids[1] IN
   IF ok THEN [o EXCEPT !.fate = [e \in Ev |-> IF e \in SeqToSet(ids) THEN "acked" ELSE @[e]],
                        !.bdone[b] = @ \cup SeqToSet(ids)]
-  ELSE [o EXCEPT !.att[b] = IF k \in DOMAIN @ THEN [@ EXCEPT ![k].fails = @ + 1] ELSE @]
+  ELSE [o EXCEPT !.att[b] = IF k \in DOMAIN @ THEN [@ EXCEPT ![k] = [@ EXCEPT !.fails = @ + 1, !.lastfail = t]] ELSE @]
 
 (* retries exhausted: the error callback ran for the batch (C09 attempts clause) *)
 OGiveUp(o, b, ids) ==
   LET k == ids[1]
-      a == IF k \in DOMAIN o.att[b] THEN o.att[b][k] ELSE [calls |-> 0, fails |-> 0]
+      a == IF k \in DOMAIN o.att[b] THEN o.att[b][k] ELSE [calls |-> 0, fails |-> 0, lastfail |-> 0]
       v1 == IF o.cfg.retry >= 0 /\ a.calls < o.cfg.retry + 1 THEN {V("gave_up_early", k, a.calls, b, "")} ELSE {}
       v2 == IF o.cfg.retry < 0 THEN {V("gave_up_unlimited", k, a.calls, b, "")} ELSE {}
       v3 == {V("onerror_twice", e, o.onerr[e] + 1, b, "") : e \in {x \in SeqToSet(ids) : o.onerr[x] >= 1}}
@@ -160,9 +176,12 @@ OBatchCommit(o, b, id, nosend) ==     \* nosend: the event is a split parent (ne
 OCommit(o, id, by) ==
   LET m == o.meta[id]
       earlier == {f \in Ev : f # id /\ o.fate[f] # "unread" /\ SameStream(o, f, id) /\ o.meta[f].idx < m.idx}
-      unfinished == {f \in earlier : o.fate[f] \notin Finished}
-      v1 == IF o.fate[id] \notin {"acked", "givenup"} THEN {V("commit_unacked", id, 0, by, o.fate[id])} ELSE {}
-      v2 == {V("frontier", id, f, by, IF o.failed[f] > 0 THEN "in_dq" ELSE o.fate[f]) : f \in unfinished}
+      unfinished == {f \in earlier : ~Fin(o, f)}
+      inDQ(e) == o.failed[e] > 0 \/ (e \in DOMAIN o.kids /\ \E k \in o.kids[e] : o.failed[k] > 0)
+      v1 == IF id \in DOMAIN o.kids
+              THEN (IF ~Fin(o, id) THEN {V("commit_unacked", id, 0, by, IF inDQ(id) THEN "child_in_dq" ELSE "child_unfinished")} ELSE {})
+              ELSE (IF o.fate[id] \notin {"acked", "givenup"} THEN {V("commit_unacked", id, 0, by, o.fate[id])} ELSE {})
+      v2 == {V("frontier", id, f, by, IF inDQ(f) THEN "in_dq" ELSE o.fate[f]) : f \in unfinished}
       v3 == IF id \in CommittedIds(o) THEN {V("dup_commit", id, 0, by, "")} ELSE {}
       same == {i \in 1..Len(o.commits) : SameStream(o, o.commits[i].id, id)}
       v4 == {V("order", id, o.commits[i].id, by, o.commits[i].by) :
@@ -182,7 +201,7 @@ OSample(o, inuse) ==
 
 (* the pipeline is idle: C02 accounting, C05 zero at quiescence, C09 routing at exhaustion *)
 OEnd(o, inuse, waiters) ==
-  LET accepted == {e \in Ev : o.fate[e] \notin {"unread", "refused"}}
+  LET accepted == {e \in Ev : o.fate[e] \notin {"unread", "refused"}} \ o.child
       com == CommittedIds(o)
       v1 == {V("unaccounted", e, 0, "end", o.fate[e]) : e \in {x \in accepted : x \notin com /\ o.fate[x] # "dropped"}}
       v2 == {V("dropped_and_committed", e, 0, "end", "") : e \in {x \in accepted : x \in com /\ o.fate[x] = "dropped"}}
@@ -190,7 +209,7 @@ OEnd(o, inuse, waiters) ==
       v4 == IF waiters # 0 THEN {V("waiters_not_zero_at_idle", 0, waiters, "pool", "")} ELSE {}
       v5 == {V("leaked", e, 0, "pool", o.fate[e]) : e \in o.live}
       gave == {e \in Ev : o.onerr[e] > 0}
-      byOf(e) == {o.commits[i].by : i \in {j \in 1..Len(o.commits) : o.commits[j].id = e}}
+      byOf(e) == {b \in Batchers : e \in SeqToSet(o.bcommit[b])}
       v6 == IF o.cfg.dq
               THEN {V("exhausted_not_dq_only", e, o.failed[e], "end", "") :
                       e \in {x \in gave : o.failed[x] # 1 \/ byOf(x) # {"dq"}}}
@@ -210,7 +229,7 @@ KindsC05 == {"over_capacity", "double_owner", "inuse_over_capacity", "inuse_nega
              "waiters_not_zero_at_idle", "leaked"}
 KindsC08 == {"batch_too_big", "batch_commit_order", "commit_before_send_return", "batch_commit_twice",
              "resend_after_done", "added_not_committed_once", "batch_bytes_exceeded", "batch_stale", "parent_sent"}
-KindsC09 == {"gave_up_early", "gave_up_unlimited", "onerror_twice", "failed_twice", "fail_without_dq",
+KindsC09 == {"payload_of_other_event", "pause_too_short", "gave_up_early", "gave_up_unlimited", "onerror_twice", "failed_twice", "fail_without_dq",
              "commit_of_dead_queued", "exhausted_not_dq_only", "exhausted_not_main_once",
              "commit_before_send_return"}
 
